@@ -111,10 +111,10 @@ func (c *c19Ctx) genScenario(seed uint64, progs []*c19Prog) *Scenario {
 	if r.Chance(1, 12) && s.RawSrc == "" {
 		s.NoFinalNL = true
 	}
-	shapes := []string{"src-dst", "src-dst-lst", "none", "src", "four", "d-src-dst", "d-only", "v", "help", "badflag", "src-dst-dashlst", "src-dst-v"}
-	s.Shape = shapes[r.weighted([]int{64, 11, 2, 3, 3, 5, 1, 1, 1, 2, 2, 2})]
+	shapes := []string{"src-dst", "src-dst-lst", "none", "src", "four", "d-src-dst", "d-only", "v", "help", "badflag", "src-dst-dashlst", "src-dst-v", "d-src"}
+	s.Shape = shapes[r.weighted([]int{64, 11, 2, 3, 3, 5, 1, 1, 1, 2, 2, 2, 2})]
 	if s.Shape == "src-dst-lst" || s.Shape == "four" {
-		s.LstKind = pick(r, []string{"ok", "ok", "ok", "parent_missing", "same_as_dst", "existing"})
+		s.LstKind = pick(r, []string{"ok", "ok", "ok", "parent_missing", "same_as_dst", "existing", "same_as_src"})
 	}
 	srcKinds := []string{"file", "missing", "dir", "mode000", "symlink_ok", "dangling", "loop", "spacename", "nonascii_name", "longname", "same_as_dst", "emptyarg", "fifo", "stdin", "relative", "dotslash"}
 	s.SrcKind = srcKinds[r.weighted([]int{74, 3, 2, 2, 2, 1, 1, 2, 2, 1, 2, 1, 3, 3, 2, 2})]
